@@ -1,5 +1,8 @@
 package art
 
 func NewSignedBinaryTree[K ints, V any]() Tree[K, V] {
+	if verifRecording {
+		return verifWrap[K, V]("signed", &signedSortedTree[K, V]{}, nil)
+	}
 	return &signedSortedTree[K, V]{}
 }
